@@ -66,3 +66,23 @@ Example C08_nonvacuous :
   let s := fold_left (cfix 0) h (cinit ["a"; "b"; "c"; "d"]%string) in
   cfree_names s = ["a"; "d"]%string /\ cn_fixed s = 2 /\ cexpand s [7; 8] = Some [7; 5; 3; 8].
 Proof. repeat split. Qed.
+
+(* ---- renaming the free parameters of a reduced population model ---- *)
+(* the code (wrapped names read without dimension names, free entries overwritten, handed to the wrapped model's
+   setter) renames exactly the free parameters, in order *)
+Theorem C08_rename_free_only : forall mask ps new,
+  List.length mask = List.length ps -> List.length new = n_free mask ->
+  rename mask ps new = rename_spec mask ps new.
+Proof. exact rename_is_spec. Qed.
+(* a fixed parameter keeps its published name, so that it can be released or re-fixed by that name *)
+Theorem C08_rename_keeps_fixed_names : forall mask ps new i p,
+  List.length mask = List.length ps -> List.length new = n_free mask ->
+  nth_error mask i = Some true -> nth_error ps i = Some p ->
+  nth_error (rename mask ps new) i = Some p.
+Proof. exact fixed_names_kept. Qed.
+(* reading the published names (code before d7c2aa2) does not *)
+Theorem C08_rename_old_code_refuted : exists mask ps new i p,
+  List.length mask = List.length ps /\ List.length new = n_free mask /\
+  nth_error mask i = Some true /\ nth_error ps i = Some p /\
+  nth_error (rename_old mask ps new) i <> Some p.
+Proof. exact rename_old_refuted. Qed.
